@@ -113,8 +113,11 @@ def check(run, replay, prop):
                 args += ["-maximal=false"]   # an exhaustive export: every line is a behaviour of its own
             if "pn" in os.path.basename(f):
                 args += ["-nodes", "2"]
-            if not thorough and not stored:
-                args += ["-budget", "25s" if vname == "plain" else "12s"]
+            if not stored:
+                if thorough:
+                    args += ["-budget", "100s" if vname == "plain" else "40s"]
+                else:
+                    args += ["-budget", "25s" if vname == "plain" else "12s"]
             try:
                 run.run_driver(binary, args, timeout=3000 if thorough else 600)
             except vlib.Crash as c:
